@@ -31,7 +31,9 @@ ShapeLists ==
       << TblEmptyCell >>,
       << TblSpan >>,
       << <<"text", <<Para1>>>>, <<"text", <<Para1>>>> >>,
-      << <<"title", Para1>>, <<"title", Para1>>, <<"text", <<Para1>>>> >> }     \* comparison layout: two title frames
+      << <<"title", Para1>>, <<"title", Para1>>, <<"text", <<Para1>>>> >>,      \* comparison layout: two title frames
+      << <<"title", Para1>>, <<"text", <<Para1>>>>, <<"body", <<Para1>>>> >>,    \* a free text box between title and body placeholder
+      << <<"text", <<Para1>>>>, <<"body", <<Para1>>>> >> }
 Slides == { [shapes |-> s, notes |-> n] : s \in ShapeLists, n \in { <<>>, <<R>> } }
 
 (* sheet = rows of cells; a cell is 1 (token string) or 0 (empty) *)
